@@ -8,6 +8,7 @@ CONSTANTS
   MaxOps = 3
   MaxActs = 1
   MaxForks = 1
+  EmitEvery = 1
 INIT Init
 NEXT Next
 VIEW view
